@@ -88,6 +88,9 @@ C10_Integral == done /\ Exact(cs.n) => \A m \in DOMAIN outs : \A i \in 1..3 :
                      x == RoundHalfAway(c)
                  IN  x % U = 0 /\ 2 * Abs(c - x) <= U
 
+\* frame condition: the expansion yields a new list; the parents, n and the offset (the case) stay as they are
+C10_ArgumentsUntouched == [][cs' = cs]_vars
+
 TypeOK == done \in BOOLEAN /\ (~done => outs = <<>>)
 
 -----------------------------------------------------------------------------
